@@ -404,6 +404,12 @@ def discharge(o, hyps, pool, budget_ms=20000):
                                 detail=detail + f' ; |lhs-rhs| = {float(dlt):.3e} at a sample point (60 digits)')
             except Exception:
                 continue
+        # the residual may vanish on this path only (tie conditions among the hypotheses): ask the SMT back end
+        if DEADLINE['t'] is None or time.time() < DEADLINE['t']:
+            rr = smt.prove(core.cmp('eq', o.lhs, o.rhs), hyps, timeout_ms=min(budget_ms, 4000), external=False)
+            if rr['status'] == 'proved':
+                return dict(status='proved', backend=rr['backend'], seconds=time.time() - t0, witness=None,
+                            detail='equality follows from the path condition')
         return dict(status='refuted' if not pts else 'undecided', backend=r['method'],
                     seconds=time.time() - t0, witness=None, detail=detail)
     if o.kind == 'holds':
